@@ -63,7 +63,7 @@ def strategy(tier):
                 ops.append(['bind', i, list(tgt)])
             else:
                 ops.append(['detach', i, draw(st.integers(0, 5))])
-        return {'specs': specs, 'ops': ops}
+        return {'specs': specs, 'ops': ops, 'share': draw(st.floats(0, 1)) < 0.3}
     return cases()
 
 
@@ -72,7 +72,12 @@ def oracle(case):
     from sismic.model import Event, InternalEvent
     specs = [probes.instrument(s) for s in case['specs']]
     n = len(specs)
+    if case.get('share') and n >= 2:
+        # the last interpreter runs the very Statechart object of the first one
+        specs[-1] = specs[0]
     drives = [Drive(s) for s in specs]
+    if case.get('share') and n >= 2:
+        drives[-1] = Drive(specs[0], sc=drives[0].sc)
     mems = [{} for _ in range(n)]
     states = [{} for _ in range(n)]
     info = core.Info()
@@ -129,7 +134,10 @@ def oracle(case):
             d.advance(op[2])
         else:
             h0 = len(heard)
-            rec = d.step(op[2])
+            gv = list(op[2])
+            ntr = len(d.spec['transitions'])
+            gv = (gv + [True] * ntr)[:ntr]      # (a shared chart has another number of guards)
+            rec = d.step(gv)
             out = []
             r = core.check_step(d, rec, idx, out, info, mems[i], states[i])
             if out:
